@@ -678,6 +678,7 @@ package erpc
 
 // what the body-binding callback (handlerCtx.binding, installed as the input
 // message's NewBodyFunc) leaves behind, per frame type
+//@ spec fn sessShape(s *session) bool = s != nil && s.peer != nil && s.peer.pluginContainer != nil && s.socket != nil && as(s.socket, type(*socket.socket)) != nil
 //@ spec fn boundCtx(c *handlerCtx) bool = c.handler != nil ==> c.pluginContainer == c.handler.pluginContainer && c.pluginContainer != nil
 
 //@ func (*handlerCtx).binding
@@ -685,6 +686,7 @@ package erpc
 //@   requires sentinelsIntact() && ctxShape(c) && c.handler == nil && c.callCmd == nil
 //@   requires c.sess != nil && c.sess.peer != nil && c.sess.peer.pluginContainer != nil && dyn(header) == dyn(c.input)
 //@   ensures[bound] boundCtx(c)
+//@   ensures[call-bound-only-for-replies] c.callCmd != nil ==> as(c.input, type(*socket.message)).mtype == TypeReply
 //@   ensures[unsupported-type-marked] as(c.input, type(*socket.message)).mtype != TypeCall && as(c.input, type(*socket.message)).mtype != TypePush && as(c.input, type(*socket.message)).mtype != TypeReply ==> notAllowed(c.stat)
 
 // The reader's view of socket.ReadMessage(ctx.input): the protocol decodes the
@@ -695,26 +697,36 @@ package erpc
 // Proto.Unpack to NewBodyFunc is the assumption here, listed in the evidence.)
 //@ trusted socket.(*socket).ReadMessage in erpc.(*session).startReadAndHandle
 //@   flags libframe may-panic
-//@   modifies msgAll(as(message, type(*socket.message))), lockset, ghost.appendFailed, ghost.maxAlloc, ghost.framesRead, ghost.trace, ghost.vetoed, ctx.start, ctx.pluginContainer, ctx.stat, ctx.handler, ctx.arg, ctx.callCmd, ctx.swap, ctx.context, allof(type(callCmd))
+//@   modifies msgAll(as(message, type(*socket.message))), lockset, ghost.appendFailed, ghost.maxAlloc, ghost.framesRead, ghost.pendingReplyLock, ghost.trace, ghost.vetoed, ctx.start, ctx.pluginContainer, ctx.stat, ctx.handler, ctx.arg, ctx.callCmd, ctx.swap, ctx.context, allof(type(callCmd))
 //@   ghostset ghost.framesRead = old(ghost.framesRead) + 1
 //@   ensures[bound-or-untouched] boundCtx(ctx)
 //@   ensures[binding-keeps-shape] ctx.sess == old(ctx.sess) && ctxShape(ctx)
+//@   ghostset ghost.pendingReplyLock = ctx.callCmd != nil
+//@   ensures[call-bound-only-for-replies] ctx.callCmd != nil ==> as(ctx.input, type(*socket.message)).mtype == TypeReply && !notAllowed(ctx.stat)
+//@   ensures[reply-lock-handed-over] ctx.callCmd != nil ==> held(addr(ctx.callCmd.mu)) && ctx.callCmd.#completions == 0 && ctx.callCmd.sess != nil && ctx.callCmd.output != nil && ctx.callCmd.inputMeta != nil
 
 //@ frameset handleRun(c *handlerCtx) = ctxRun(c), allof(type(callCmd)), ghost.writeAttempts, ghost.writesOK, ghost.lastWriteOK, ghost.callRuns, ghost.pushRuns, ghost.replyRuns, ghost.closeRequests, ghost.handleRuns
 //@ func (*session).startReadAndHandle$2
-//@   property C03
+//@   property C03 C02
 //@   flags libframe
-//@   modifies handleRun(ctx), as(ctx.output, type(*socket.message)).xferPipe.#inheritedFrom
-//@   requires sentinelsIntact() && ctx != nil && ctxShape(ctx) && ctx.sess != nil && ctx.sess.peer != nil
+//@   spawnset ghost.pendingReplyLock = false
+//@   requires[reply-lock-handed-over] @C02 ctx.callCmd != nil ==> held(addr(ctx.callCmd.mu)) && ctx.callCmd.#completions == 0 && ctx.callCmd.sess != nil && ctx.callCmd.output != nil && ctx.callCmd.inputMeta != nil
+//@   ensures[reply-lock-released] @C02 !ghost.pendingReplyLock
+//@   modifies handleRun(ctx), ghost.pendingReplyLock, channels, as(ctx.output, type(*socket.message)).xferPipe.#inheritedFrom
+//@   requires sentinelsIntact() && ctx != nil && ctxShape(ctx) && sessShape(ctx.sess)
+//@   requires[pending-lock-is-this-reply] @C02 ghost.pendingReplyLock ==> ctx.callCmd != nil && as(ctx.input, type(*socket.message)).mtype == TypeReply && !notAllowed(ctx.stat)
 //@   requires boundCtx(ctx)
 //@   ensures[handled-once] ghost.handleRuns == old(ghost.handleRuns) + 1
 
 //@ func (*handlerCtx).handle
-//@   property C03
+//@   property C03 C02
 //@   flags libframe
-//@   modifies handleRun(c), as(c.output, type(*socket.message)).xferPipe.#inheritedFrom
-//@   requires sentinelsIntact() && ctxShape(c) && c.sess != nil && c.sess.peer != nil
+//@   requires[reply-lock-handed-over] @C02 c.callCmd != nil ==> held(addr(c.callCmd.mu)) && c.callCmd.#completions == 0 && c.callCmd.sess != nil && c.callCmd.output != nil && c.callCmd.inputMeta != nil
+//@   modifies handleRun(c), ghost.pendingReplyLock, channels, as(c.output, type(*socket.message)).xferPipe.#inheritedFrom
+//@   requires sentinelsIntact() && ctxShape(c) && sessShape(c.sess)
 //@   requires boundCtx(c)
+//@   requires[pending-lock-is-this-reply] @C02 ghost.pendingReplyLock ==> c.callCmd != nil && as(c.input, type(*socket.message)).mtype == TypeReply && !notAllowed(c.stat)
+//@   ensures[reply-lock-released] @C02 !ghost.pendingReplyLock
 //@   let mi = as(c.input, type(*socket.message))
 //@   ghostset ghost.handleRuns = old(ghost.handleRuns) + 1
 //@   ensures[call-handled-once] old(mi.mtype) == TypeCall && !old(notAllowed(c.stat)) ==> ghost.callRuns == old(ghost.callRuns) + 1 && ghost.pushRuns == old(ghost.pushRuns) && ghost.replyRuns == old(ghost.replyRuns) && ghost.closeRequests == old(ghost.closeRequests)
@@ -722,11 +734,64 @@ package erpc
 //@   ensures[reply-handled-once] old(mi.mtype) == TypeReply && !old(notAllowed(c.stat)) ==> ghost.replyRuns == old(ghost.replyRuns) + 1 && ghost.callRuns == old(ghost.callRuns) && ghost.pushRuns == old(ghost.pushRuns) && ghost.closeRequests == old(ghost.closeRequests) && ghost.writeAttempts == old(ghost.writeAttempts)
 //@   ensures[unsupported-type-disconnects] old(notAllowed(c.stat)) || (old(mi.mtype) != TypeCall && old(mi.mtype) != TypePush && old(mi.mtype) != TypeReply) ==> ghost.closeRequests == old(ghost.closeRequests) + 1 && ghost.callRuns == old(ghost.callRuns) && ghost.pushRuns == old(ghost.pushRuns) && ghost.replyRuns == old(ghost.replyRuns) && ghost.writeAttempts == old(ghost.writeAttempts) && ghost.handlerCalls == old(ghost.handlerCalls)
 
-//@ func (*handlerCtx).handleReply
+// ---- C02: every call completes exactly once ---------------------------------------
+// ghost: number of completions (done/cancel) of a call command; the two channels
+// carry the completion (chanSent / chanClosed are the engine's channel monitors)
+//@ ghost field (*callCmd).completions int
+//@ ghost field (*callCmd).chanSent int
+//@ ghost field (*callCmd).chanClosed bool
+// The per-call mutex protects the completion state: a call is completed iff it
+// has a reply recorded or a non-OK status.
+//@ lockinv (*callCmd).mu protects stat inputMeta #completions :: (self.#completions == 0 || self.#completions == 1) && (self.#completions == 1 <==> (self.inputMeta != nil || !statOK(self.stat))) && self.sess != nil && self.output != nil
+
+//@ func (*callCmd).done
 //@   property C02
+//@   flags libframe
+//@   requires[not-yet-completed] c.#completions == 0
+//@   requires c.sess != nil && c.output != nil
+//@   modifies c.#completions, waitgroups, c.doneChan.#chanClosed, c.callCmdChan.#chanSent
+//@   ghostset c.#completions = old(c.#completions) + 1
+//@   ensures[completed-once] c.#completions == 1
+//@   ensures[signalled] chanClosed(c.doneChan) && chanSent(c.callCmdChan) == old(chanSent(c.callCmdChan)) + 1
+//@   ensures[wait-group-released] wgcount(addr(c.sess.graceCallCmdWaitGroup)) == old(wgcount(addr(c.sess.graceCallCmdWaitGroup))) - 1
+
+//@ func (*callCmd).cancel
+//@   property C02
+//@   flags libframe
+//@   requires[not-yet-completed] c.#completions == 0
+//@   requires c.sess != nil && c.output != nil && sentinelsIntact()
+//@   modifies c.#completions, c.stat, waitgroups, c.doneChan.#chanClosed, c.callCmdChan.#chanSent
+//@   ghostset c.#completions = old(c.#completions) + 1
+//@   ensures[completed-once] c.#completions == 1
+//@   ensures[cancelled-status] statCode(c.stat) == CodeConnClosed
+//@   ensures[signalled] chanClosed(c.doneChan) && chanSent(c.callCmdChan) == old(chanSent(c.callCmdChan)) + 1
+//@   ensures[wait-group-released] wgcount(addr(c.sess.graceCallCmdWaitGroup)) == old(wgcount(addr(c.sess.graceCallCmdWaitGroup))) - 1
+
+// bindReply takes the lock of the call the reply belongs to; handleReply gives it back
+//@ ghost global pendingReplyLock bool
+//@ func (*handlerCtx).bindReply
+//@   property C02
+//@   flags libframe
+//@   requires ctxShape(c) && c.sess != nil && c.callCmd == nil && c.pluginContainer != nil && sentinelsIntact()
+//@   modifies c.callCmd, c.swap, c.context, userCtx(c), allof(type(callCmd)), lockset, ghost.trace, ghost.vetoed, allof(type(utils.Args)), allelems(type(utils.argsKV)), allelems(type(byte))
+//@   ensures[lock-handed-over] c.callCmd != nil ==> held(addr(c.callCmd.mu)) && c.callCmd.inputMeta != nil
+//@   ensures[bound-call-is-pending] c.callCmd != nil ==> c.callCmd.#completions == 0 && c.callCmd.sess != nil && c.callCmd.output != nil
+//@   ensures[no-call-no-lock] c.callCmd == nil ==> sameLocks()
+
+//@ func (*handlerCtx).handleReply
+//@   property C02 C04
 //@   flags recover-scope libframe
-//@   modifies ctxRun(c), allof(type(callCmd)), ghost.replyRuns
+//@   modifies ctxRun(c), allof(type(callCmd)), ghost.replyRuns, ghost.pendingReplyLock, channels
+//@   requires ctxShape(c) && sessShape(c.sess) && sentinelsIntact()
+//@   requires[lock-handed-over] @C02 c.callCmd != nil ==> held(addr(c.callCmd.mu)) && c.callCmd.#completions == 0 && c.callCmd.sess != nil && c.callCmd.output != nil && c.callCmd.inputMeta != nil
 //@   ghostset ghost.replyRuns = old(ghost.replyRuns) + 1
+//@   ghostset ghost.pendingReplyLock = false
+//@   ensures[lock-released]! @C02 old(c.callCmd) != nil ==> !held(addr(old(c.callCmd).mu))
+//@   ensures[completed-once]! @C02 old(c.callCmd) != nil ==> old(c.callCmd).#completions == 1
+//@   ensures[decode-failure-reported]! @C04 old(c.callCmd) != nil && !statOK(old(c.stat)) ==> !statOK(old(c.callCmd).stat)
+//@   ensures[peer-status-reported]! @C04 old(c.callCmd) != nil && statOK(old(c.callCmd.stat)) && statOK(old(c.stat)) && !statOK(old(as(c.input, type(*socket.message)).status)) ==> old(c.callCmd).stat == old(as(c.input, type(*socket.message)).status)
+//@   ensures[earlier-failure-kept]! @C04 old(c.callCmd) != nil && !statOK(old(c.callCmd.stat)) ==> old(c.callCmd).stat == old(c.callCmd.stat)
+//@   ensures[ok-only-if-all-ok]! @C04 old(c.callCmd) != nil && statOK(old(c.callCmd).stat) ==> statOK(old(c.stat)) && statOK(old(c.callCmd.stat)) && statOK(old(as(c.input, type(*socket.message)).status)) && ghost.vetoed == old(ghost.vetoed)
 
 // closing the session is requested by starting Close on its own goroutine
 //@ trusted (*session).Close
@@ -734,12 +799,15 @@ package erpc
 //@   spawnset ghost.closeRequests = old(ghost.closeRequests) + 1
 
 //@ func (*session).startReadAndHandle
-//@   property C06 C03
+//@   property C06 C03 C02
 //@   flags recover-scope
 //@   requires s.peer != nil && s.socket != nil && as(s.socket, type(*socket.socket)) != nil && s.peer.pluginContainer != nil
 //@   requires @C03 sentinelsIntact()
 //@   ensures[reader-ends-in-disconnect] ghost.disconnectRuns == old(ghost.disconnectRuns) + 1
 //@   ensures[reader-ends-in-disconnect-after-panic]! ghost.disconnectRuns == old(ghost.disconnectRuns) + 1
+//@   requires @C02 !ghost.pendingReplyLock
+//@   ensures[no-orphan-reply-lock] @C02 !ghost.pendingReplyLock
+//@   loop 0: invariant[reply-lock-handed-on] @C02 !ghost.pendingReplyLock
 //@   loop 0: invariant[every-accepted-frame-dispatched] @C03 ghost.framesRead - old(ghost.framesRead) == (ghost.handleScheduled - old(ghost.handleScheduled)) + (ghost.handleRuns - old(ghost.handleRuns))
 
 // ---- logging: output only (keeps verification conditions small) ------------------
